@@ -844,7 +844,8 @@ impl<'a> crate::ranger::Store<SignedEntry> for StoreInstance<'a> {
                 // iterator for entries from range.x to range.y
                 let start = Bound::Included(range.x().to_byte_tuple());
                 let end = Bound::Excluded(range.y().to_byte_tuple());
-                let bounds = RecordsBounds::new(start, end);
+                // the range comes from a peer: never scan outside of this replica's namespace
+                let bounds = RecordsBounds::new(start, end).clamp_to_namespace(&self.namespace);
                 let iter = RecordsRange::with_bounds(&tables.records, bounds)?;
                 chain_none(iter)
             }
@@ -852,12 +853,14 @@ impl<'a> crate::ranger::Store<SignedEntry> for StoreInstance<'a> {
             Ordering::Greater => {
                 // iterator for entries from start to range.y
                 let end = Bound::Excluded(range.y().to_byte_tuple());
-                let bounds = RecordsBounds::from_start(&self.namespace, end);
+                let bounds = RecordsBounds::from_start(&self.namespace, end)
+                    .clamp_to_namespace(&self.namespace);
                 let iter = RecordsRange::with_bounds(&tables.records, bounds)?;
 
                 // iterator for entries from range.x to end
                 let start = Bound::Included(range.x().to_byte_tuple());
-                let bounds = RecordsBounds::to_end(&self.namespace, start);
+                let bounds = RecordsBounds::to_end(&self.namespace, start)
+                    .clamp_to_namespace(&self.namespace);
                 let iter2 = RecordsRange::with_bounds(&tables.records, bounds)?;
 
                 iter.chain(Some(iter2).into_iter().flatten())
